@@ -415,8 +415,8 @@ def evaluate(prop, tier, modules, kr, alive, d, target_dir, need_stubbing=False,
 
     def match_known(m, what):
         for k in known:
-            if k['key'] in m.classes:
-                return k
+            if k['key'] in m.classes and (not k.get('match') or re.search(k['match'], what)):
+                return k     # same role *and* the same failure (when the finding names one): anything else is still a violation
         return None
 
     # compile verdicts
